@@ -26,7 +26,7 @@ EXPLANATION = (
     "multiply_into the stride max_n / x has x equal to a sized k. P2 scratch: clear() and resize(n, ZERO) of bufs[k] precede its first "
     "use in fft_into, fft_inv_into, multiply_into. P3 additive destination: every store through the caller's `res` (closure bodies "
     "included) is place = place + value or AddAssign; wrappers pass zero-filled destinations of the documented length. P4 single "
-    "writer: w/reversed are mutably borrowed only in new/update_n; update_n returns early when n <= len and asserts a power of two. "
+    "P7 (added after seeded change C04-h): every function constructing an FFT aggregate applies update_n(k >= 4) to it before it escapes. writer: w/reversed are mutably borrowed only in new/update_n; update_n returns early when n <= len and asserts a power of two. "
     "P5 shape: multiply returns vec![] iff a or b is empty, else from_elem(0, a.len()+b.len()-1); multiply_into takes at most that many. "
     "P6 integer side: no i32*i32 product in the crate (a coefficient product reaches 1e12 inside the envelope); inputs are converted with from_i32. "
     "NOT decided: exactness of the convolution (floating point), the packed real-FFT algebra, the butterfly strides inside fft_internal."
@@ -291,6 +291,29 @@ def check(col, prog, tier, profile, fixture=None):
             col.ok("P3" + sfx, b.loc(), key, "passes vec![zero; len] to the accumulate-into variant")
         else:
             col.violation("P3" + sfx, key, b.loc(), "%s must pass a zero-filled destination to %s" % (b.path, tgt))
+
+    # ---------------- P7: every constructor hands out a plan sized for at least 4 points
+    col.rule("P7" + sfx, "every function that builds an FFT value sizes its plan (update_n(k), k >= 4) before the value escapes", floor=1)
+    for b in crate.bodies:
+        imp = crate.impl_of(b)
+        if b.is_closure or (imp is not None and imp.get("derived")) or b.key in {h.key for h in helpers}:
+            continue
+        sites = [(bb, idx) for bb, idx, s_ in b.statements() if s_["k"] == "assign" and s_["rv"]["k"] == "agg" and s_["rv"]["ak"]["k"] == "adt" and s_["rv"]["ak"]["def"] == adt["key"]]
+        if not sites:
+            continue
+        I = A(b)
+        okc = bool(I.final_states)
+        for st in I.final_states:
+            ups = [e for e in st.event_list() if is_call_to(e, fn["update_n"])]
+            big = [e for e in ups if len(e.args) > 1 and e.args[1][0] == "int" and e.args[1][1] >= 4]
+            ret = util.ret_term(st)
+            # the returned value is the local the sizing call was applied to
+            okc = okc and bool(big) and ret[0] == "out" and big[-1].args[0] == ("ref", ("local", ret[2]))
+        key = "%s|sized" % fk(b)
+        if okc:
+            col.ok("P7" + sfx, b.loc(sites[0][0], sites[0][1]), key, "built, then update_n(k >= 4) on the same value, then returned")
+        else:
+            col.violation("P7" + sfx, key, b.loc(sites[0][0], sites[0][1]), "%s hands out an FFT value whose plan tables were not sized with update_n(k), k >= 4: the untangling twiddle index max_n - (max_n >> 2) is only valid for max_n >= 4, a first transform of size 2 on such an object is wrong and the result depends on the object's history" % b.path)
 
     # ---------------- P4
     writers = set()
